@@ -34,6 +34,7 @@ type WorldOpts struct {
 	Elements     int     // top-level elements per section (upper bound)
 	RefDensity   float64 // probability that a child position is a $ref holder
 	FragmentOnly bool    // references within a document are always spelled fragment-only
+	AbsOnly      bool    // references to other documents are always absolute URLs (the root's location need not be known)
 	IDs          int     // 0 none; otherwise id variant (C04/C18 worlds only)
 	// faults (C08)
 	Dangling float64 // probability that a $ref slot points to a pointer that does not exist
@@ -598,6 +599,9 @@ func (g *worldGen) fillSlots() {
 			}
 		}
 		forms := []string{"abs", "rel", "dotrel", "rootrel"}
+		if g.o.AbsOnly {
+			forms = forms[:1]
+		}
 		if t.doc == s.doc {
 			forms = []string{"fragment", "fragment", "fragment", "samefile", "abs"}
 			if g.o.FragmentOnly {
